@@ -1135,6 +1135,7 @@ class SetConfigMessage(MessagePayload):
             self.interface = interface_header.interface
             construct_obj = _conf_gen.INTERFACE_CONFIG_MAP[subtype]
         else:
+            self.interface = None
             construct_obj = _conf_gen.CONFIG_MAP[parsed.config_type]
 
         if parsed.flags & self.FLAG_REVERT_TO_DEFAULT:
